@@ -188,7 +188,7 @@ def tok_digest(impl, text):
     toks = []
     for sh in impl.parse_shapes(text):
         toks += [('(' if x == 0 else ')' if x == 1 else x) for x in gen.flat(sh)]
-    return hashlib.sha1('\x00'.join(toks).encode()).hexdigest()[:16]
+    return hashlib.sha1('\x00'.join(e2e.norm_fresh(toks)).encode()).hexdigest()[:16]
 
 
 def run(ctx):
